@@ -23,7 +23,7 @@ CHECKS = {
  "C04": dict(engine="crash", level="fault_enumeration", ref="DESIGN.md 5 C04",
    technique=TECH + "nested crash injection inside recovery's own repair writes, repeated reopen, write-trace vs live-extent intersection",
    text="Crash images of the C03 engine are recovered (R1), reopened again k times without writing (contents must equal R1 up to expiry), recovered again with a power cut at sampled/every device call of recovery's own writes with loss/tear families (nested, depth <= 2) - contents must equal R1 - and the blocks recovery writes are intersected with the extents of R1's live records.",
-   note="Nested depth 2; clock not frozen, so keys whose expiry passes between recoveries may disappear (accounted for)."),
+   note="Nested depth 2; clock not frozen, so keys whose expiry passes between recoveries may disappear (accounted for). A second stage (bigrec engine) recovers synthesised images that need more than 1024 separate retirements, i.e. several journal transactions, and cuts the power around every barrier of that recovery."),
  "C05": dict(engine="seq", level="exploration", ref="DESIGN.md 5 C05",
    technique=TECH + "partition invariant monitor at quiescent points of simulated runs",
    text="At every acknowledged flush with empty buffers and retirement queue the data area is checked to be exactly partitioned into live extents and maximal free runs, the allocator's own totals are recomputed, the persisted metadata counters are compared with the independently decoded durable image, and an OutOfSpace flush must be justified by the buffered extents not fitting the largest free run; after the workload every key is deleted and the emptied device must offer exactly one free run over the whole data area. A second stage recovers crash images of overwrite-heavy workloads on 24-96 block devices (crash engine, profile C05) and checks the same partition after recovery and after a probe workload: recovery must neither leak nor double-book a block.",
